@@ -9,7 +9,7 @@ vars == <<l, bad, seen>>
 Init == l = 1 /\ bad = <<>> /\ seen = [layout |-> {}, cast |-> {}, cmp |-> 0, cmpties |-> 0, cmpsum |-> {}, replay |-> {}]
 IsEvent(e) == l <= Len(Events) /\ Events[l].e = e /\ l' = l + 1
 B(x) == x = 1
-Flag(ok, rec) == bad' = IF ok THEN bad ELSE Append(bad, rec)
+Flag(ok, rec) == bad' = IF ok \/ Len(bad) >= 400 THEN bad ELSE Append(bad, rec)
 TLayout == LET r == Events[l] IN
   /\ IsEvent("Layout") /\ r.type \in DOMAIN Shapes
   /\ Flag(LayoutOK(r, ShapeNComp[Shapes[r.type]]) /\ ZeroOK(r), [cls |-> "layout", type |-> r.type, num |-> r.num])
